@@ -47,6 +47,11 @@ class Register:
         self._alias_from = alias_from
         self._alias_slice = alias_slice
         if alias_slice is not None:
+            for bound in (alias_slice.start, alias_slice.stop, alias_slice.step):
+                if bound is not None and not isinstance(bound, (int, AnnotatedValue)):
+                    raise JaqalError(
+                        f"Cannot slice register {alias_from.name} with {bound}: not an integer."
+                    )
             if (
                 isinstance(alias_slice.start, AnnotatedValue)
                 or isinstance(alias_slice.stop, AnnotatedValue)
